@@ -316,6 +316,7 @@ def _report(ctx: Ctx, res: dict, origin: str, drift: list, symbols=None):
 
 def run(ctx: Ctx):
     ctx.lean_gate()
+    ctx.cov["timing_s"] = {"lean_gate": round(ctx.elapsed(), 1)}
     ctx.anchors(ANCHORS)
     ctx.cov["rule"] = (
         "formulas over ≤3 positive integer symbols on boxes with bounds ≤ 15 (lower bounds 1..8, widths 0..11), 7 generated streams "
@@ -353,7 +354,7 @@ def run(ctx: Ctx):
             cases.append({"kind": "fixed", "expr": rp["formula"], "box": rp["box"], "n": len(rp["box"]), "expect": None, "known": known})
         from harness import cmp9 as C
 
-        n_gen = 800 if ctx.thorough else 48
+        n_gen = 800 if ctx.thorough else 40
         for i in range(n_gen):
             stream = C.STREAMS[i % len(C.STREAMS)]
             cases.append({"kind": "gen", "stream": stream, "n": rng.choice([1, 2, 2, 3]),
@@ -374,7 +375,9 @@ def run(ctx: Ctx):
                           "max_templates": 6 if ctx.thorough else 2, "max_points": 1500 if ctx.thorough else 700,
                           "limit": 20.0 if ctx.thorough else 10.0})
     workers = int(os.environ.get("AFV_WORKERS", "4"))
+    _t_pool = ctx.elapsed()
     results = ML.pool_map(work, cases, workers=min(workers, 4))
+    ctx.cov["timing_s"]["workers"] = round(ctx.elapsed() - _t_pool, 1)
 
     drift: list = []
     n_minmax = 0
